@@ -2,6 +2,7 @@ package characteristic
 
 import (
 	"fmt"
+	"math"
 	"net"
 
 	"github.com/xiam/to"
@@ -189,7 +190,12 @@ func (c *Characteristic) clampInt(value int) interface{} {
 func (c *Characteristic) convert(v interface{}) interface{} {
 	switch c.Format {
 	case FormatFloat:
-		return to.Float64(v)
+		f := to.Float64(v)
+		if math.IsNaN(f) || math.IsInf(f, 0) {
+			// e.g. from the strings "NaN" or "1e400"; such a value cannot be encoded as JSON
+			f = 0
+		}
+		return f
 	case FormatUInt8:
 		return int(to.Uint64(v))
 	case FormatUInt16:
@@ -202,6 +208,8 @@ func (c *Characteristic) convert(v interface{}) interface{} {
 		return int(to.Uint64(v))
 	case FormatBool:
 		return to.Bool(v)
+	case FormatString, FormatTLV8, FormatData:
+		return to.String(v)
 	default:
 		return v
 	}
